@@ -8,11 +8,20 @@
 #define NV_LS_MAX_EVALS 100000
 #define NV_COUNTER_OK (nv_ver_counter < 4000000000000000000ull)
 #define NV_STATE_OK(s) ((s)->eval_ver == (s)->ver && (s)->ver <= nv_ver_counter)
+#ifndef NV_LS_ARMIJO_EXIT_DECL
+#define NV_LS_ARMIJO_EXIT_DECL
+_Bool nv_ls_armijo_exit;     /* ghost (see specs/C07/lsearch.h): every success exit of the configured line search is an Armijo exit */
+#endif
+/* success => the new value is finite and, for an Armijo-exit line search, not above the value on entry (C02: f <= f0) */
+#define NV_LS_DECREASE(OK) \
+__CPROVER_ensures((OK) ==> __CPROVER_isfinited(state->m_fx)) \
+__CPROVER_ensures(((OK) && nv_ls_armijo_exit && __CPROVER_isfinited(__CPROVER_old(state->m_fx))) ==> state->m_fx <= __CPROVER_old(state->m_fx))
 #define NV_WEAK_LSEARCHK_GET_CONTRACT \
 __CPROVER_requires(__CPROVER_is_fresh(state, sizeof(*state)) && __CPROVER_is_fresh(self, sizeof(*self)) && __CPROVER_is_fresh(descent, sizeof(*descent)) && NV_STATE_OK(state) && NV_COUNTER_OK) \
 __CPROVER_assigns(*state, nv_ver_counter, nv_ls_ghost) \
 __CPROVER_ensures(__CPROVER_return_value._0 ==> (state->valid && state->ver != __CPROVER_old(state->ver))) \
 __CPROVER_ensures(NV_STATE_OK(state) && nv_ver_counter >= __CPROVER_old(nv_ver_counter) && nv_ver_counter - __CPROVER_old(nv_ver_counter) <= NV_LS_MAX_EVALS) \
 __CPROVER_ensures(__CPROVER_return_value._0 ==> nv_ver_counter > __CPROVER_old(nv_ver_counter)) \
-__CPROVER_ensures(state->m_status == __CPROVER_old(state->m_status))
+__CPROVER_ensures(state->m_status == __CPROVER_old(state->m_status)) \
+NV_LS_DECREASE(__CPROVER_return_value._0)
 #endif
